@@ -236,3 +236,57 @@ Proof.
   intros Ht. pose proof (true_R' 1 x H1 Hx Ht). congruence.
 Qed.
 End Complete.
+
+(* ---------- the declared nodes after the free-feature loop ---------- *)
+Lemma decl_facts_free {P : Z -> Prop} {st : bool} toks n0 b root1 s1 : rep P st n0 toks b ->
+  free_result (bs_ls b) root1 s1 ->
+  Forall2 (fun k x => sg_label (ls_g s1) x = Some (tid_of_kind k)) (d4_decls toks) (bs_idx b) /\
+  (forall i x, nth_error (bs_idx b) i = Some x ->
+     Forall2 (edge_rep (ls_g s1) (bs_idx b)) (rev (d4_edges_from toks (S i))) (sg_out (ls_g s1) x)).
+Proof.
+  intros HR [[_ ->]|[Hd [Hl [He _]]]]; [split; [exact (rp_decl _ _ _ _ _ HR)|exact (rp_edges _ _ _ _ _ HR)]|].
+  split.
+  - eapply Forall2_impl; [|exact (rp_decl _ _ _ _ _ HR)]. intros k x Hx. exact (ext_label_some _ _ _ _ _ He Hx).
+  - intros i x Hi.
+    assert (Ha : sg_alive (ls_g (bs_ls b)) x = true) by (apply (idx_alive _ _ _ _ _ _ HR); now apply nth_error_In in Hi).
+    rewrite (ex_out _ _ _ He x Ha) by (intros []).
+    eapply Forall2_impl; [|exact (rp_edges _ _ _ _ _ HR i x Hi)]. intros e y Hey.
+    apply (edge_rep_ext _ _ (bs_idx b) (bs_idx b) [] e y He); [intros ? []|auto|intros z Hz; now left|exact Hey].
+Qed.
+
+(* ---------- a balancing step keeps the feature set of every node ---------- *)
+Lemma vars_step ord (Hperm : forall l f, In f (ord l) <-> In f l) {P : Z -> Prop} {st : bool} m s s' nx x v :
+  tables_ok P st s -> p3step ord (P := P) (st := st) m s s' nx -> mexact (ls_g s) m ->
+  GVs (ls_g s) x v -> exists v', GVs (ls_g s') x v' /\ seteq v' v.
+Proof.
+  intros Hok [[-> _]|[[-> _]|[Hnx [_ [Hok' [He [_ [cd [Hcd [ans [Hp [_ [Hans Hout]]]]]]]]]]]]] Hm Hv;
+    try (exists v; split; [exact Hv|apply seteq_refl]).
+  eapply (step_vars ord Hperm (P := P) (st := st) m s s' nx cd ans); eassumption.
+Qed.
+
+(* ---------- to the vector ---------- *)
+Lemma inclb_from a b : (forall z, In z a -> In z b) -> inclb a b = true.
+Proof.
+  intros H. unfold inclb. apply forallb_forall. intros v Hv. unfold memZ. apply existsb_exists.
+  exists v. split; [now apply H|apply Z.eqb_refl].
+Qed.
+
+Theorem iso_complete g root order C N v : iso g root order C -> GVs g root v ->
+  (forall y l, sg_label g y = Some (GLit l) -> l <> 0%Z /\ Z.abs_nat l <= N) ->
+  (forall f, 1 <= f <= N -> In (Z.of_nat f) v) -> complete C N = true.
+Proof.
+  intros HI Hv Hlit Hall. unfold complete.
+  pose proof (iso_pass g root order C HI vars_node [] hvars vars_node_local vars_bridge) as Hp. fold (varss C) in Hp.
+  assert (Hne : length C <> 0).
+  { intros E. apply (iso_nonempty _ _ _ _ HI). now apply length_zero_iff_nil. }
+  rewrite last_nth. unfold varss at 1 3. rewrite pass_length. fold (varss C).
+  specialize (Hp (length C - 1) ltac:(lia)).
+  assert (Er : nth (length C - 1) order 0 = root).
+  { destruct (is_root _ _ _ _ HI) as [pre ->]. rewrite (is_len _ _ _ _ HI), app_length. cbn [length].
+    rewrite app_nth2 by lia. replace (length pre + 1 - 1 - length pre) with 0 by lia. reflexivity. }
+  rewrite Er in Hp. rewrite (GF_det hvars g root _ v Hp Hv).
+  apply andb_true_iff. split; apply inclb_from; intros z Hz.
+  - destruct Hv as [fu Hfu]. destruct (vars_from_lits g fu root v z Hfu Hz) as [y [l [Hl ->]]].
+    destruct (Hlit y l Hl) as [Hnz Hle]. apply Semantics.zseq_In. lia.
+  - apply Semantics.zseq_In in Hz. replace z with (Z.of_nat (Z.to_nat z)) by lia. apply Hall. lia.
+Qed.
